@@ -592,6 +592,14 @@ def gen_c07(rng, sid0, n, decodes):
             body = [1, fc, 0, 0, 0, 1, bc] + [rng.randrange(256) for _ in range(bc + 2)]
             steps = [rx(body), {"op": "reopen"}, rx(rtu(1, req_read(3, 0, 1)))]
             scs.append(scenario(sid0 + len(scs), "rtu", [1, 2], steps, seed=3, decode=rng.choice(decodes), tag=f"c07-rtu-length-boundary-fc{fc}-{bc:#x}"))
+    # a flooding peer and a shutdown at the same instant (both framings, several levels): honoured while input is pending
+    for framing in ("tcp", "rtu"):
+        for k in range(3):
+            data = []
+            for i in range(400):
+                data += frame(framing, i, 1, req_read(3, i % 50, 1 + i % 3))
+            steps = [rx(frame(framing, 9, 1, req_read(3, 0, 1))), {"op": "rx_race_shutdown", "bytes": data}]
+            scs.append(scenario(sid0 + len(scs), framing, [1, 2], steps, seed=3, decode=rng.choice(decodes), tag=f"c07-flood-and-shutdown-{framing}"))
     return scs
 
 
